@@ -29,6 +29,7 @@ type goroutine struct {
 	vc          []int
 	spawnPos    string
 	quiet       bool // blocked waiting for quiescence
+	stalled     bool // a slow goroutine: parked until everything else (timers included) has come to rest
 }
 
 type Chan struct {
@@ -217,6 +218,14 @@ func (it *interpreter) enabledOthers(self *goroutine) []*goroutine {
 func (it *interpreter) quiescent(self *goroutine, timers bool) bool {
 	it.inQuiet++
 	defer func() { it.inQuiet-- }()
+	if !self.stalled {
+		// a stalled goroutine resumes before anybody concludes that nothing can move any more
+		for _, g := range it.gs {
+			if g.stalled && !g.done {
+				return false
+			}
+		}
+	}
 	if len(it.enabledOthers(self)) > 0 {
 		return false
 	}
@@ -353,6 +362,25 @@ func (it *interpreter) schedPoint(fr *frame, what string) {
 	self := fr.g
 	if self == nil || self.atomicDepth > 0 || it.aborting {
 		return
+	}
+	// "Slow goroutine" decision (C09): the running goroutine is parked at this point until every other
+	// goroutine has come to rest and every pending timer has fired - one decision models an arbitrarily
+	// long delay between two of its actions (firing n timers early would cost n units of the delay bound).
+	if it.stalls < it.cfg.Stalls && self.id != 0 && !self.system && !self.stalled {
+		if it.pc.choose(it, "stall", 2, nil) == 1 {
+			it.stalls++
+			self.stalled, self.quiet = true, true
+			where := fr.pos()
+			for c := fr.caller; c != nil; c = c.caller {
+				if it.ld.isRepoFn(c.fn) {
+					where = c.pos() + " in " + c.fn.String()
+					break
+				}
+			}
+			it.event("stall g%d before %s at %s", self.id, what, where)
+			it.block(fr, "stalled (slow goroutine) before "+what, func() bool { return it.quiescent(self, true) })
+			self.stalled, self.quiet = false, false
+		}
 	}
 	for {
 		if it.preemptions >= it.cfg.Preemptions {
